@@ -1,10 +1,12 @@
 """C05 -- no third party: at most two sides share a nameplate or mailbox."""
-from ..events import (all_events, construct_of, handler_paths, handler_for,
+from ..events import (is_conn_side, is_listeners_reg, all_events, construct_of, handler_paths, handler_for,
                       frame_type, flat_events, handler_of)
 from ..report import render_path
 from ..terms import show, plain, is_const, strip_wrappers, mentions, walk
 from .. import e3 as e3mod
 from ..repo import AnalysisError
+
+from . import shared
 
 LEVEL = "other"
 EXPLANATION = (
@@ -16,6 +18,7 @@ EXPLANATION = (
     "never re-labelled. The last sentence of the property (the first two sides keep "
     "their access) needs the refusal to depend on the caller's side; it does not "
     "(known finding D9).")
+EXPLANATION += ' Also decided: every entry point exits clean, no start-up statement touches the side tables, and the counted select returns plain rows.'
 
 
 def crowd_cond(pc, tables, interp):
@@ -58,6 +61,10 @@ def threshold(t, rows):
 
 def run(ctx):
     model = ctx.model
+    shared.r_durable(ctx, "R05.durable", ("chan",),
+                     'after a restart the side records the crowd check counts are not the ones the clients were answered from')
+    shared.r_startup(ctx, "R05.startup", ('mailbox_sides', 'nameplate_sides'),
+                     'side records are removed or changed, so the count the crowd check relies on is wrong')
     from .. import roles as _roles
     R = _roles.get(model)
     interp = model.interp
@@ -98,7 +105,7 @@ def run(ctx):
             parent_col = "mailbox_id" if table == "mailbox_sides" else "nameplates_id"
             n = threshold(t, rows)
             ok = sel is not None and eq is not None and set(eq) == {parent_col} and \
-                n == 3 and b is True and st.limit is None
+                n == 3 and b is True and st.plain_rows
             why = ""
             if not ok:
                 if eq is None or set(eq) != {parent_col}:
@@ -131,7 +138,7 @@ def run(ctx):
                 pass
             dep = False
             for x in walk(t):
-                if x[0] == "attr" and x[2] == "_side":
+                if is_conn_side(x):
                     dep = True
                 if x[0] == "param" and x[1] == "side":
                     dep = True
@@ -194,9 +201,9 @@ def run(ctx):
                     continue
                 if not after:
                     continue
-                if e["k"] == "setattr" and e["attr"] == "_mailbox" and e["value"][0] == "obj":
+                if e["k"] == "setattr" and e["value"][0] == "obj" and e["value"][1] == "Mailbox":
                     leaks.append("mailbox retained")
-                if e["k"] == "reg_set" and e["reg"][0] == "reg" and e["reg"][2] == "_listeners":
+                if e["k"] == "reg_set" and is_listeners_reg(e["reg"]):
                     leaks.append("listener registered")
                 if e["k"] == "send":
                     sends.append(frame_type(e))
@@ -216,7 +223,7 @@ def run(ctx):
             for e, _ in all_events(p):
                 if e["k"] == "ret" and e["callee"] == R.open_op:
                     got = True
-                if e["k"] == "reg_set" and e["reg"][0] == "reg" and e["reg"][2] == "_listeners":
+                if e["k"] == "reg_set" and is_listeners_reg(e["reg"]):
                     ctx.ob("R05.noleak", "%s: subscribes only after open_mailbox returned" % h,
                            got, e, "" if got else "the listener is registered before the "
                            "crowd check")
